@@ -720,6 +720,57 @@ theorem immRun_single {k : Kernel} {d : Req} {ρ : Ren} (hl : d.live k = true)
 /-- the tetrahedron `tetK` switched to immediate deletion (swap-with-last style) -/
 def tetFI : Kernel := { tetK with deferred := false }
 
+/-! ### the deferred run, with the identity renumbering made explicit -/
+
+theorem runDef_append (a b : List Req) : ∀ k : Kernel, runDef k (a ++ b) = runDef (runDef k a) b := by
+  induction a with
+  | nil => intro k; rfl
+  | cons d t ih =>
+    intro k
+    by_cases hl : d.live k = true
+    · simp only [List.cons_append, runDef, hl, if_true]; exact ih _
+    · simp only [List.cons_append, runDef, hl, if_false]; exact ih _
+
+/-- **the deferred run removes `R0 ∪ cloSet` and renumbers nothing** (`tracked_spec` with `σ' = id`) -/
+theorem runDef_spec {k0 : Kernel} (hw : WF k0) (hc : Closed k0) (ds : List Req) :
+    ∀ (k : Kernel) (R R0 : Rem), GInv k → k.deferred = true → LogMinus k0 k Ren.id R → EqLive k0 R R0 → UpClosed k0 R0 →
+      LogMinus k0 (runDef k ds) Ren.id (R0.union (cloSet k0 ds)) := by
+  induction ds with
+  | nil =>
+    intro k R R0 _ _ s e _
+    exact (s.congrLive e).congrLive (eqLive_union_nil k0 R0)
+  | cons d t ih =>
+    intro k R R0 hi hd s e u
+    by_cases hl : d.live k = true
+    · have hsv := Req.surv_of_live_id s hl
+      obtain ⟨hl0, _⟩ := Req.live_of_surv hsv
+      have step := Req.logical_def hi hd hl
+      have refs : RefsSurvive k0 R := (u.refs hw hc).congrLive e.symm
+      have e' := eqLive_step s refs e hsv
+      rw [Req.map_id] at e'
+      have h := ih _ _ (R0.union (d.clo k0)) (Req.ginv hi hl) (Req.apply_deferred hd d) (s.comp step) e'
+        (u.union (upClosed_clo k0 d))
+      have er : runDef k (d :: t) = runDef (d.apply k) t := by simp [runDef, hl]
+      rw [er]
+      exact h.congrLive (eqLive_union_exec k0 R0 t hl0)
+    · have er : runDef k (d :: t) = runDef k t := by simp [runDef, hl]
+      rw [er]
+      refine (ih k R R0 hi hd s e u).congrLive (eqLive_union_skip u t ?_)
+      classical
+      by_cases hl0 : d.live k0 = true
+      · by_cases hr : d.inRem R
+        · exact Or.inr ((Req.inRem_congr e hl0).mp hr)
+        · have := Req.live_map s (Req.surv_of_live hl0 hr)
+          rw [Req.map_id] at this
+          exact absurd this hl
+      · exact Or.inl (by simpa using hl0)
+
+/-- from the state itself: the deferred run of `ds` flags exactly `cloSet k ds` and renumbers nothing -/
+theorem runDef_logMinus {k : Kernel} (hi : GInv k) (hd : k.deferred = true) (ds : List Req) :
+    LogMinus k (runDef k ds) Ren.id (cloSet k ds) :=
+  (runDef_spec hi.wf hi.closed ds k Rem.none Rem.none hi hd (LogIso.refl k) (EqLive.refl _ _) (upClosed_none k)).congrLive
+    (eqLive_none_union k _)
+
 end Logical
 end Kernel
 end OVM
